@@ -6,6 +6,8 @@ import ast
 
 from ..index import walk_no_nested
 from ..report import Result
+from .. import permode
+from ..inline import inlined, with_helpers
 from ..rules import rd_atomic, rg_mass
 from ..source import AnalysisError, src
 
@@ -18,6 +20,33 @@ PER_MODE = {
     ("parity", False): {"s%2"},
     ("parity", True): {"1-s%2", "1-(s%2)", "(s+1)%2"},
 }
+
+
+def _enumerations(fn) -> dict:
+    """index variable -> (enumerated expression text, element variable) for `for i, x in enumerate(E)` loops / generators"""
+    out = {}
+    for n in ast.walk(fn):
+        pairs = []
+        if isinstance(n, ast.For):
+            pairs = [(n.target, n.iter)]
+        elif isinstance(n, ast.comprehension):
+            pairs = [(n.target, n.iter)]
+        for tg, it in pairs:
+            if isinstance(it, ast.Call) and src(it.func) == "enumerate" and it.args and isinstance(tg, ast.Tuple) and len(tg.elts) == 2 and all(isinstance(x, ast.Name) for x in tg.elts):
+                out[tg.elts[0].id] = (src(it.args[0]), tg.elts[1].id)
+    return out
+
+
+def _role(expr_text: str):
+    t = expr_text.lower()
+    if "input" in t and "output" not in t:
+        return "in"
+    if "output" in t and "input" not in t:
+        return "out"
+    return None
+
+
+EXPECT = {("threshold", False): (0, 1, 1, 1, 1, 1), ("threshold", True): (1, 0, 0, 0, 0, 0), ("parity", False): (0, 1, 0, 1, 0, 1), ("parity", True): (1, 0, 1, 0, 1, 0)}
 
 
 def check(ctx) -> Result:
@@ -41,38 +70,43 @@ def check(ctx) -> Result:
             f = ci.methods.get(f"apply_{kind}_mapping")
             if f is None:
                 raise AnalysisError(f"{ci.name}.apply_{kind}_mapping not found")
-            n += rg_mass.check_function(ctx, res, f)
-            # per-mode functions
-            comps = [a for a in walk_no_nested(f.node) if isinstance(a, ast.Assign) and src(a.targets[0]) == "new_s" and isinstance(a.value, ast.Call) and src(a.value.func) == "State" and isinstance(a.value.args[0], ast.ListComp)]
-            par = ctx.tree.parents(f.rel)
-            seen = {}
-            for a in comps:
-                lc = a.value.args[0]
-                v = lc.generators[0].target.id
-                fn = src(lc.elt).replace(" ", "").replace(v, "s")
-                itn = src(lc.generators[0].iter)
-                p = par.get(a)
-                inv = None
-                if isinstance(p, ast.If) and src(p.test) == "invert":
-                    inv = a in p.body
-                seen[(fn, itn, inv)] = a
-            if kind == "threshold":
-                base = [k for k in seen if k[2] is None and k[1] == "out_state"]
-                invs = [k for k in seen if k[2] is True and k[1] == "new_s"]
-                ok = len(base) == 1 and base[0][0] in PER_MODE[("threshold", False)] and len(invs) == 1 and invs[0][0] in PER_MODE[("threshold", True)]
-            else:
-                nrm = [k for k in seen if k[2] is False and k[1] == "out_state"]
-                invs = [k for k in seen if k[2] is True and k[1] == "out_state"]
-                ok = len(nrm) == 1 and nrm[0][0] in PER_MODE[("parity", False)] and len(invs) == 1 and invs[0][0] in PER_MODE[("parity", True)]
-            res.add(ok, "E-per-mode-function", f"{ci.name}.apply_{kind}_mapping", f.site(), f.qualname, f"{kind} mapping applies the documented per-mode function (plain and inverted)",
-                    f"{kind} mapping per-mode function(s) are {sorted((k[0], k[2]) for k in seen)}", construct=str(sorted((k[0], str(k[2])) for k in seen)))
-            # result goes through recombination
-            rets = [r for r in walk_no_nested(f.node) if isinstance(r, ast.Return)]
+            fh = with_helpers(ctx, f, exclude=("_recombine_mapped_result",), inline_locals=False)
+            n += rg_mass.check_function(ctx, res, fh)
+            # per-mode functions: table of the image of an occupation 0..5 under the key stored into the mapped dictionary
+            want = {False: EXPECT[(kind, False)], True: EXPECT[(kind, True)]}
+            option = [p_ for p_ in f.params() if p_ != "self"]
+            option = option[0] if option else "invert"
+            for inv in (False, True):
+                keys = [(d_, k_, nd) for d_, k_, nd in permode.key_tables(fh.node, option, inv)]
+                tabs = [(d_, k_, nd) for d_, k_, nd in keys if isinstance(k_, permode.Sym) and k_.table != permode.DOMAIN]
+                inst = f"{ci.name}.apply_{kind}_mapping:{'inverted' if inv else 'plain'}"
+                if not tabs:
+                    ident = [k_ for _d, k_, _n in keys if isinstance(k_, permode.Sym)]
+                    if ident and all(k_.table == permode.DOMAIN for k_ in ident):
+                        res.bad("E-per-mode-function", inst, f.site(), f.qualname, f"{kind} mapping stores the output state itself as key: no per-mode function is applied", construct="identity")
+                    else:
+                        res.frozen(False, "E-per-mode-function", inst, f.site(), f.qualname, "", "the key under which mapped weights are stored could not be tabulated", construct="")
+                    continue
+                bad_t = [(d_, k_, nd) for d_, k_, nd in tabs if k_.table != want[inv]]
+                res.add(not bad_t, "E-per-mode-function", inst, f.site(tabs[0][2]), f.qualname, f"{kind} mapping ({'inverted' if inv else 'plain'}) sends occupations 0..5 to {want[inv]}",
+                        f"{kind} mapping ({'inverted' if inv else 'plain'}) sends occupations 0..5 to {bad_t[0][1].table if bad_t else ''}, documented is {want[inv]}", construct=str(bad_t[0][1]) if bad_t else "")
+            # result goes through recombination: every return hands the dictionary that received the weights to _recombine_mapped_result
+            dicts = {d_.split("[")[0] for d_, k_, _nd in permode.key_tables(fh.node, option, False) if isinstance(k_, permode.Sym)}
+            rets = [r for r in walk_no_nested(fh.node) if isinstance(r, ast.Return)]
             rets.sort(key=lambda r: r.lineno)
-            for r in rets[:-1]:
-                res.add(src(r.value) == "self._recombine_mapped_result(mapped_result)", "M4-every-return-is-mapped", f"{ci.name}.apply_{kind}_mapping:line{r.lineno - f.node.lineno}", f.site(r), f.qualname, "returns the recombined mapped weights",
-                        f"`{src(r)[:70]}` returns without applying the per-mode map (and the `invert` option) to every output", construct=src(r)[:100])
-            res.frozen(bool(rets) and src(rets[-1].value) == "self._recombine_mapped_result(mapped_result)", "M4-recombine", f"{ci.name}.apply_{kind}_mapping", f.site(), f.qualname, "mapped weights are recombined into a new result", "mapped result is not returned through the recombination", construct=src(rets[-1]) if rets else "")
+            for r in rets:
+                v = r.value
+                okr = isinstance(v, ast.Call) and src(v.func) == "self._recombine_mapped_result" and len(v.args) == 1 and src(v.args[0]) in dicts
+                if okr:
+                    res.ok("M4-every-return-is-mapped", f"{ci.name}.apply_{kind}_mapping:line{r.lineno - f.node.lineno}", f.site(r), f.qualname, "returns the recombined mapped weights")
+                elif isinstance(v, ast.Call) and src(v.func) == "self._recombine_mapped_result" and len(v.args) == 1 and not (isinstance(v.args[0], ast.Name) and any(isinstance(a_, ast.Assign) and src(a_.targets[0]) == v.args[0].id and src(a_.value) in dicts for a_ in ast.walk(fh.node))):
+                    res.bad("M4-every-return-is-mapped", f"{ci.name}.apply_{kind}_mapping:line{r.lineno - f.node.lineno}", f.site(r), f.qualname, f"`{src(r)[:70]}` recombines `{src(v.args[0])[:40]}`, not the dictionary that received the mapped weights: the per-mode map (and the `{option}` option) is not applied to every output on this path", construct=src(r)[:100])
+                elif isinstance(v, ast.Name) and v.id == "self" or (isinstance(v, ast.Call) and src(v.func) in ("copy", "deepcopy", "copy.copy", "copy.deepcopy") and v.args and src(v.args[0]) == "self"):
+                    res.bad("M4-every-return-is-mapped", f"{ci.name}.apply_{kind}_mapping:line{r.lineno - f.node.lineno}", f.site(r), f.qualname, f"`{src(r)[:70]}` returns without applying the per-mode map (and the `{option}` option) to every output", construct=src(r)[:100])
+                else:
+                    res.frozen(False, "M4-every-return-is-mapped", f"{ci.name}.apply_{kind}_mapping:line{r.lineno - f.node.lineno}", f.site(r), f.qualname, "", f"return `{src(r)[:60]}` is not recognised as the recombination of the mapped weights", construct=src(r)[:100])
+            if not rets:
+                res.frozen(False, "M4-recombine", f"{ci.name}.apply_{kind}_mapping", f.site(), f.qualname, "", "no return found", construct="")
     res.floor("G stores in mappings", n, 6)
     # amplitude refusal dominates all work
     for kind in ("threshold", "parity"):
@@ -81,22 +115,43 @@ def check(ctx) -> Result:
                                   lambda t, node: src(t).replace("'", '"') in ('self.result_type == "probability_amplitude"', 'self.result_type != "probability"'),
                                   lambda nd: nd.kind == "for" or (nd.kind == "stmt" and isinstance(nd.ast, ast.Return)),
                                   "D-amplitude-mapping-refused", f.qualname, "mappings are refused for amplitude-valued results")
-    # constructor: array[i, j] with i over inputs, j over outputs
+    # constructor: array[i, j] with i over inputs, j over outputs; nested[input][output]
     ini = SR.methods["__init__"]
-    loops = [l for l in walk_no_nested(ini.node) if isinstance(l, ast.For) and src(l.iter).startswith("enumerate(")]
-    roles = {}
-    for l in loops:
-        roles[l.target.elts[0].id] = (src(l.iter), l.target.elts[1].id)
-    subs = [s for s in walk_no_nested(ini.node) if isinstance(s, ast.Subscript) and src(s.value) == "self.__array" and isinstance(s.slice, ast.Tuple)]
-    ok = bool(subs)
-    for s in subs:
-        i, j = (src(x) for x in s.slice.elts)
-        ok = ok and "inputs" in roles.get(i, ("",))[0] and "outputs" in roles.get(j, ("",))[0]
-    st = [a for a in walk_no_nested(ini.node) if isinstance(a, ast.Assign) and isinstance(a.targets[0], ast.Subscript) and isinstance(a.value, ast.Subscript) and src(a.value.value) == "self.__array"]
-    ok = ok and bool(st) and src(st[0].targets[0].slice) == roles.get(src(st[0].value.slice.elts[1]), ("", ""))[1]
-    outer = [a for a in walk_no_nested(ini.node) if isinstance(a, ast.Assign) and isinstance(a.targets[0], ast.Subscript) and src(a.targets[0].value) == "dict_results"]
-    ok = ok and bool(outer) and src(outer[0].targets[0].slice) == roles.get(src(st[0].value.slice.elts[0]), ("", ""))[1] if st else False
-    res.add(ok, "M4-array-index-roles", "SimulationResult.__init__", ini.site(), ini.qualname, "nested[input][output] = array[i, j] with i over inputs and j over outputs", "nested dictionary is not built as nested[input_i][output_j] = array[i, j]", construct=src(st[0]) if st else "")
+    ini_fn = inlined(ini.node)
+    par = {c_: n_ for n_ in ast.walk(ini_fn) for c_ in ast.iter_child_nodes(n_)}
+    enum = _enumerations(ini_fn)
+    reads = [s_ for s_ in ast.walk(ini_fn) if isinstance(s_, ast.Subscript) and isinstance(s_.ctx, ast.Load) and src(s_.value) in ("self.__array", "array") and isinstance(s_.slice, ast.Tuple) and len(s_.slice.elts) == 2]
+    verdicts = []
+    for s_ in reads:
+        i, j = (src(x) for x in s_.slice.elts)
+        if i not in enum or j not in enum:
+            continue
+        ri, rj = _role(enum[i][0]), _role(enum[j][0])
+        si, sj = enum[i][1], enum[j][1]
+        # innermost keyed container that receives the value, then the key under which that container is stored
+        k1 = k2 = None
+        p_ = par.get(s_)
+        if isinstance(p_, ast.Assign) and isinstance(p_.targets[0], ast.Subscript):
+            k1 = src(p_.targets[0].slice)
+            inner = src(p_.targets[0].value)
+            for a_ in ast.walk(ini_fn):
+                if isinstance(a_, ast.Assign) and isinstance(a_.targets[0], ast.Subscript) and src(a_.value) == inner:
+                    k2 = src(a_.targets[0].slice)
+        elif isinstance(p_, ast.DictComp) and p_.value is s_:
+            k1 = src(p_.key)
+            q_ = par.get(p_)
+            if isinstance(q_, ast.DictComp) and q_.value is p_:
+                k2 = src(q_.key)
+        if k1 is None or k2 is None or None in (ri, rj):
+            continue
+        good = (ri, rj) == ("in", "out") and (k2, k1) == (si, sj)
+        verdicts.append((good, s_, f"array[{i} over {enum[i][0]}, {j} over {enum[j][0]}] stored under [{k2}][{k1}]"))
+    if not verdicts:
+        res.frozen(False, "M4-array-index-roles", "SimulationResult.__init__", ini.site(), ini.qualname, "", "construction of the nested dictionary from the array not recognised", construct="")
+    else:
+        okv = all(v[0] for v in verdicts)
+        res.add(okv, "M4-array-index-roles", "SimulationResult.__init__", ini.site(verdicts[0][1]), ini.qualname, "nested[input][output] = array[i, j] with i over inputs and j over outputs",
+                "nested dictionary is not built as nested[input_i][output_j] = array[i, j]: " + "; ".join(v[2] for v in verdicts if not v[0]), construct=";".join(v[2] for v in verdicts)[:200])
     chk = [n for n in walk_no_nested(ini.node) if isinstance(n, ast.If) and "shape[" in src(n.test)]
     dims = {src(n.test).replace(" ", "") for n in chk}
     res.add({"len(self.__inputs)!=self.__array.shape[0]", "len(self.__outputs)!=self.__array.shape[1]"} <= dims, "M4-array-index-roles", "SimulationResult.__init__:shape", ini.site(), ini.qualname, "rows = inputs, columns = outputs enforced", "array shape is not checked as (inputs, outputs)", construct=str(sorted(dims)))
@@ -112,25 +167,42 @@ def check(ctx) -> Result:
             "pair indexing no longer goes through the nested lookup in (input, output) order", construct="__getitem__")
     # recombination
     rc = SR.methods["_recombine_mapped_result"]
-    loops = [l for l in walk_no_nested(rc.node) if isinstance(l, ast.For)]
-    en = {l.target.elts[0].id: (src(l.iter), l.target.elts[1].id) for l in loops if src(l.iter).startswith("enumerate(") and isinstance(l.target, ast.Tuple)}
-    st = [a for a in walk_no_nested(rc.node) if isinstance(a, ast.Assign) and isinstance(a.targets[0], ast.Subscript) and src(a.targets[0].value) == "array"]
-    ok = False
-    if st:
+    rc_fn = inlined(rc.node)
+    enum = _enumerations(rc_fn)
+    st = [a_ for a_ in ast.walk(rc_fn) if isinstance(a_, ast.Assign) and isinstance(a_.targets[0], ast.Subscript) and isinstance(a_.targets[0].slice, ast.Tuple) and len(a_.targets[0].slice.elts) == 2 and isinstance(a_.value, ast.Subscript)]
+    mp = rc.params()[1] if len(rc.params()) > 1 else "mapped_result"
+    col_expr = None
+    if not st or any(src(x) not in enum for x in st[0].targets[0].slice.elts):
+        res.frozen(False, "M4-array-index-roles", "SimulationResult._recombine_mapped_result", rc.site(), rc.qualname, "", "array[i, j] = mapped[input][output] store not recognised", construct="")
+    else:
         i, j = (src(x) for x in st[0].targets[0].slice.elts)
         v = src(st[0].value)
-        ok = "self.inputs" in en.get(i, ("",))[0] and "unique_outputs" in en.get(j, ("",))[0] and v == f"mapped_result[{en[i][1]}][{en[j][1]}]"
-    res.add(ok, "M4-array-index-roles", "SimulationResult._recombine_mapped_result", rc.site(), rc.qualname, "array[i, j] = mapped[input_i][output_j]", "recombined array rows/columns do not follow (inputs, outputs)", construct=src(st[0]) if st else "")
-    # L2: the column set is not modified after the loop that fills it
-    mods = sorted([c.lineno for c in walk_no_nested(rc.node) if isinstance(c, ast.Call) and isinstance(c.func, ast.Attribute) and src(c.func.value) == "unique_outputs" and c.func.attr in ("add", "discard", "remove", "update", "pop", "clear")])
-    uses = sorted([n.lineno for n in walk_no_nested(rc.node) if isinstance(n, ast.Call) and src(n.func) in ("enumerate", "list", "sorted", "len") and n.args and src(n.args[0]) == "unique_outputs"])
-    reass = [a for a in walk_no_nested(rc.node) if isinstance(a, ast.Assign) and src(a.targets[0]) == "unique_outputs"]
-    res.add(bool(mods) and bool(uses) and max(mods) < min(uses) and len(reass) == 1, "L2-column-order-fixed", "SimulationResult._recombine_mapped_result", rc.site(), rc.qualname, "the output set is complete before column order is fixed and is not modified afterwards",
-            "the output set is modified between the iteration that fixes column order and the one that publishes `outputs`", construct=f"mods {mods} uses {uses}")
-    ret = [r for r in walk_no_nested(rc.node) if isinstance(r, ast.Return)][0]
-    kw = {k.arg: src(k.value) for k in ret.value.keywords} if isinstance(ret.value, ast.Call) else {}
-    same_order = kw.get("outputs") in ("list(unique_outputs)",) and kw.get("inputs") == "self.inputs" and kw.get("result_type") == "self.result_type"
-    res.add(same_order, "L2-column-order-fixed", "SimulationResult._recombine_mapped_result:publish", rc.site(ret), rc.qualname, "published outputs enumerate the same set in the same order; rows follow self.inputs", f"recombined result is published with {kw}", construct=str(kw))
+        ok = _role(enum[i][0]) == "in" and v == f"{mp}[{enum[i][1]}][{enum[j][1]}]"
+        col_expr = enum[j][0]
+        res.add(ok, "M4-array-index-roles", "SimulationResult._recombine_mapped_result", rc.site(st[0]), rc.qualname, "array[i, j] = mapped[input_i][output_j]", f"recombined array rows/columns do not follow (inputs, outputs): `{src(st[0])[:80]}` with {i} over {enum[i][0]}, {j} over {enum[j][0]}", construct=src(st[0]))
+    # L2: the published `outputs` enumerate the same collection, in the same order, as the loop that fixed the columns
+    rets = [r for r in ast.walk(rc_fn) if isinstance(r, ast.Return) and isinstance(r.value, ast.Call)]
+    kw = {k.arg: k.value for k in rets[0].value.keywords} if rets else {}
+    if col_expr is None or "outputs" not in kw:
+        res.frozen(False, "L2-column-order-fixed", "SimulationResult._recombine_mapped_result", rc.site(), rc.qualname, "", "column enumeration / published outputs not recognised", construct="")
+    else:
+        pub = src(kw["outputs"])
+        def core(t):
+            while t.startswith(("list(", "tuple(")) and t.endswith(")"):
+                t = t[t.index("(") + 1:-1]
+            return t
+        coll = core(col_expr)
+        same = core(pub) == coll
+        # the collection is not modified between the first enumeration and the publication
+        first_use = min([n_.lineno for n_ in ast.walk(rc_fn) if isinstance(n_, ast.Call) and src(n_.func) in ("enumerate", "list", "sorted", "len", "tuple") and n_.args and core(src(n_.args[0])) == coll] or [0])
+        mods = [c_.lineno for c_ in ast.walk(rc_fn) if isinstance(c_, ast.Call) and isinstance(c_.func, ast.Attribute) and src(c_.func.value) == coll and c_.func.attr in ("add", "discard", "remove", "update", "pop", "clear", "append", "sort", "reverse", "insert", "extend")]
+        late = [m_ for m_ in mods if m_ >= first_use]
+        sorted_one_side = ("sorted(" in pub) != ("sorted(" in col_expr)
+        res.add(same and not late and not sorted_one_side, "L2-column-order-fixed", "SimulationResult._recombine_mapped_result", rc.site(), rc.qualname, "the published outputs enumerate the collection that fixed the column order, unmodified in between",
+                f"columns are laid out by iterating `{col_expr}` but `outputs` is published as `{pub}`" + (f" and the collection is modified at line(s) {late} in between" if late else "") + ": labels and columns can disagree", construct=f"{col_expr} / {pub}")
+        rows_ok = src(kw.get("inputs")) == "self.inputs" if "inputs" in kw else False
+        rt_ok = src(kw.get("result_type")) == "self.result_type" if "result_type" in kw else False
+        res.add(rows_ok and rt_ok, "L2-column-order-fixed", "SimulationResult._recombine_mapped_result:publish", rc.site(rets[0]), rc.qualname, "rows follow self.inputs; result type kept", f"recombined result is published with inputs={src(kw.get('inputs'))}, result_type={src(kw.get('result_type'))}", construct=src(rets[0])[:160])
     # sampling result
     pi = PR.methods["__init__"]
     t = src(pi.node)
